@@ -76,3 +76,207 @@ pub proof fn lemma_cascade_other_streams_untouched(gs: Seq<ConsumerGroup>, s: u3
 {
     seqlem::lemma_filter_all(gs, |g: ConsumerGroup| g.stream_id != s);
 }
+
+// ---- LINK harnesses: the contracts other units ASSUME for functions proved here, proved from the real ones ---------------------
+// Each harness has the assuming unit's stub signature, its `requires` / `ensures` copied VERBATIM from that unit's prelude, and a
+// body that is ONE call of the real extracted function (plus proof blocks calling proved lemmas): Verus proves
+// "real contract ==> assumed contract" on every run. A later edit of a stub has to be mirrored here (and vice versa).
+// The assuming units' `IggyError` stand-ins have more variants than this unit's: the stubs speak about `r is Ok` / `r is Err` only.
+impl ClientManager {
+    // copied from vx/prelude/disconnect.rs (shared prelude of units client_disconnect / user_disconnect), stub `ClientManager::delete_client`
+    // label: C06.link.disconnect.delete_client
+    pub fn link_disconnect_delete_client(&mut self, client_id: u32) -> (r: Option<Client>)
+        ensures
+            final(self).clients@ == old(self).clients@.remove(client_id),
+            match r { Some(c) => old(self).clients@.contains_key(client_id) && c == old(self).clients@[client_id], None => !old(self).clients@.contains_key(client_id) },
+    {
+        self.delete_client(client_id)
+    }
+
+    // copied from vx/prelude/disconnect.rs, stub `ClientManager::join_consumer_group` (members_wf / is_member / same_membership there are
+    // word-for-word this unit's prelude; `with_membership` is repeated below)
+    // label: C06.link.disconnect.join_consumer_group
+    pub fn link_disconnect_join_consumer_group(&mut self, client_id: u32, stream_id: u32, topic_id: u32, group_id: u32) -> (r: Result<(), IggyError>)
+        requires members_wf(old(self)),
+        ensures
+            r is Err ==> final(self).clients@ == old(self).clients@,
+            r is Ok <==> old(self).clients@.contains_key(client_id),
+            map_frame_except(old(self).clients@, final(self).clients@, client_id),
+            r is Ok ==> final(self).clients@[client_id].user_id == old(self).clients@[client_id].user_id && final(self).clients@[client_id].session == old(self).clients@[client_id].session
+                && final(self).clients@[client_id].consumer_groups@ == with_membership(old(self).clients@[client_id].consumer_groups@, stream_id, topic_id, group_id),
+            members_wf(final(self)),
+    {
+        self.join_consumer_group(client_id, stream_id, topic_id, group_id)
+    }
+
+    // copied from vx/prelude/disconnect.rs, stub `ClientManager::leave_consumer_group` (`without_membership` is repeated below)
+    // label: C06.link.disconnect.leave_consumer_group
+    pub fn link_disconnect_leave_consumer_group(&mut self, client_id: u32, stream_id: u32, topic_id: u32, consumer_group_id: u32) -> (r: Result<(), IggyError>)
+        requires members_wf(old(self)),
+        ensures
+            r is Err ==> final(self).clients@ == old(self).clients@,
+            r is Ok <==> old(self).clients@.contains_key(client_id),
+            map_frame_except(old(self).clients@, final(self).clients@, client_id),
+            r is Ok ==> final(self).clients@[client_id].user_id == old(self).clients@[client_id].user_id && final(self).clients@[client_id].session == old(self).clients@[client_id].session
+                && final(self).clients@[client_id].consumer_groups@ == without_membership(old(self).clients@[client_id].consumer_groups@, stream_id, topic_id, consumer_group_id),
+            members_wf(final(self)),
+    {
+        self.leave_consumer_group(client_id, stream_id, topic_id, consumer_group_id)
+    }
+
+    // copied from units/catalogue_more/prelude.rs, stub `ClientManager::delete_clients_for_user` (`cm_keys_wf` there is this unit's `keys_wf`,
+    // repeated below under its name there)
+    // label: C06.link.catalogue_more.delete_clients_for_user
+    pub fn link_catalogue_more_delete_clients_for_user(&mut self, user_id: u32) -> (r: Result<(), IggyError>)
+        requires cm_keys_wf(old(self)),
+        ensures
+            r is Ok,
+            forall|k: u32| #[trigger] final(self).clients@.contains_key(k)
+                <==> (old(self).clients@.contains_key(k) && old(self).clients@[k].user_id != Some(user_id)),
+            forall|k: u32| #[trigger] final(self).clients@.contains_key(k) ==> final(self).clients@[k] == old(self).clients@[k],
+    {
+        self.delete_clients_for_user(user_id)
+    }
+
+    // copied from units/catalogue_more/prelude.rs, stub `ClientManager::delete_consumer_groups_for_topic` (`without_topic` repeated below)
+    // label: C06.link.catalogue_more.delete_consumer_groups_for_topic
+    pub fn link_catalogue_more_delete_consumer_groups_for_topic(&mut self, stream_id: u32, topic_id: u32)
+        ensures
+            final(self).clients@.dom() == old(self).clients@.dom(),
+            forall|k: u32| #[trigger] final(self).clients@.contains_key(k) ==>
+                final(self).clients@[k].user_id == old(self).clients@[k].user_id && final(self).clients@[k].session == old(self).clients@[k].session
+                && final(self).clients@[k].consumer_groups@ == without_topic(old(self).clients@[k].consumer_groups@, stream_id, topic_id),
+    {
+        self.delete_consumer_groups_for_topic(stream_id, topic_id)
+    }
+
+    // copied from units/catalogue_more/prelude.rs, stub `ClientManager::delete_consumer_groups_for_stream` (`without_stream` repeated below)
+    // label: C06.link.catalogue_more.delete_consumer_groups_for_stream
+    pub fn link_catalogue_more_delete_consumer_groups_for_stream(&mut self, stream_id: u32)
+        ensures
+            final(self).clients@.dom() == old(self).clients@.dom(),
+            forall|k: u32| #[trigger] final(self).clients@.contains_key(k) ==>
+                final(self).clients@[k].user_id == old(self).clients@[k].user_id && final(self).clients@[k].session == old(self).clients@[k].session
+                && final(self).clients@[k].consumer_groups@ == without_stream(old(self).clients@[k].consumer_groups@, stream_id),
+    {
+        self.delete_consumer_groups_for_stream(stream_id)
+    }
+}
+// (vocabulary of vx/prelude/disconnect.rs used by the copied clauses, repeated word for word)
+pub open spec fn with_membership(gs: Seq<ConsumerGroup>, sid: u32, tid: u32, gid: u32) -> Seq<ConsumerGroup> {
+    if is_member(gs, sid, tid, gid) { gs } else { gs.push(ConsumerGroup { stream_id: sid, topic_id: tid, group_id: gid }) }
+}
+pub open spec fn without_membership(gs: Seq<ConsumerGroup>, sid: u32, tid: u32, gid: u32) -> Seq<ConsumerGroup> {
+    gs.filter(|g: ConsumerGroup| !same_membership(g, sid, tid, gid))
+}
+// (vocabulary of units/catalogue_more/prelude.rs used by the copied clauses, repeated word for word)
+pub open spec fn cm_keys_wf(cm: &ClientManager) -> bool {
+    forall|k: u32| #[trigger] cm.clients@.contains_key(k) ==> cm.clients@[k].session.client_id == k
+}
+pub open spec fn without_topic(gs: Seq<ConsumerGroup>, sid: u32, tid: u32) -> Seq<ConsumerGroup> {
+    gs.filter(|g: ConsumerGroup| !(g.stream_id == sid && g.topic_id == tid))
+}
+pub open spec fn without_stream(gs: Seq<ConsumerGroup>, sid: u32) -> Seq<ConsumerGroup> {
+    gs.filter(|g: ConsumerGroup| g.stream_id != sid)
+}
+
+// ---- units catalogue_maps / runtime_more: `purged_streams()` ---------------------------------------------------------------------
+// In those units the client manager is an opaque stand-in and `purged_streams()` an UNINTERPRETED ghost record ("the stream ids whose
+// memberships were purged"); their stub of delete_consumer_groups_for_stream only says that the call adds `stream_id` to it. The link
+// gives the record an INTERPRETATION over the real client table (a projection): a stream id is purged when NO client holds a membership
+// nested in that stream. Under it the stub's clause is a fact about the state, proved from [C06.cascade.stream]: afterwards no
+// membership in `stream_id` is left (<=), and for every other stream "some client is a member" is unchanged (=>).
+pub open spec fn no_membership_in(cm: &ClientManager, s: u32) -> bool {
+    forall|k: u32, i: int| #![trigger cm.clients@[k].consumer_groups@[i]] cm.clients@.contains_key(k) && 0 <= i < cm.clients@[k].consumer_groups@.len()
+        ==> cm.clients@[k].consumer_groups@[i].stream_id != s
+}
+impl ClientManager {
+    pub open spec fn purged_streams(&self) -> Set<u32> {
+        Set::<u32>::from_finite_type(|s: u32| no_membership_in(self, s))
+    }
+
+    // copied from units/catalogue_maps/prelude.rs, stub `ClientManager::delete_consumer_groups_for_stream`
+    // label: C06.link.catalogue_maps.delete_consumer_groups_for_stream
+    pub fn link_catalogue_maps_delete_consumer_groups_for_stream(&mut self, stream_id: u32)
+        ensures final(self).purged_streams() == old(self).purged_streams().insert(stream_id),
+    {
+        self.delete_consumer_groups_for_stream(stream_id);
+        proof { lemma_purged_after_cascade(old(self), self, stream_id); }
+    }
+
+    // copied from units/runtime_more/prelude.rs, stub `ClientManager::delete_consumer_groups_for_stream` (the same text as in catalogue_maps; no
+    // clause of runtime_more (C05) reads the record, the label carries this unit's property so that the registered check counts it)
+    // label: C06.link.runtime_more.delete_consumer_groups_for_stream
+    pub fn link_runtime_more_delete_consumer_groups_for_stream(&mut self, stream_id: u32)
+        ensures final(self).purged_streams() == old(self).purged_streams().insert(stream_id),
+    {
+        self.delete_consumer_groups_for_stream(stream_id);
+        proof { lemma_purged_after_cascade(old(self), self, stream_id); }
+    }
+}
+// [C06.cascade.stream.clients] + [C06.cascade.stream]  ==>  the purged record grows by exactly `sid`
+pub proof fn lemma_purged_after_cascade(a: &ClientManager, b: &ClientManager, sid: u32)
+    requires
+        b.clients@.dom() == a.clients@.dom(),
+        forall|k: u32| #[trigger] b.clients@.contains_key(k) ==>
+            b.clients@[k].consumer_groups@ == a.clients@[k].consumer_groups@.filter(|g: ConsumerGroup| g.stream_id != sid),
+    ensures b.purged_streams() == a.purged_streams().insert(sid),
+{
+    let keep = |g: ConsumerGroup| g.stream_id != sid;
+    assert forall|s: u32| no_membership_in(b, s) <==> (s == sid || no_membership_in(a, s)) by {
+        if s == sid || no_membership_in(a, s) {
+            assert forall|k: u32, i: int| #![trigger b.clients@[k].consumer_groups@[i]] b.clients@.contains_key(k) && 0 <= i < b.clients@[k].consumer_groups@.len()
+                implies b.clients@[k].consumer_groups@[i].stream_id != s by {
+                let ga = a.clients@[k].consumer_groups@;
+                assert(a.clients@.dom().contains(k));
+                assert(b.clients@[k].consumer_groups@ == ga.filter(keep));
+                lemma_cascade_none_left(ga, keep);
+                lemma_filter_subset(ga, keep);
+                let x = ga.filter(keep)[i];
+                assert(keep(x));
+                assert(ga.contains(x));
+                let j = choose|j: int| 0 <= j < ga.len() && ga[j] == x;
+                assert(a.clients@[k].consumer_groups@[j] == x);
+            }
+        }
+        if no_membership_in(b, s) && s != sid {
+            assert forall|k: u32, i: int| #![trigger a.clients@[k].consumer_groups@[i]] a.clients@.contains_key(k) && 0 <= i < a.clients@[k].consumer_groups@.len()
+                implies a.clients@[k].consumer_groups@[i].stream_id != s by {
+                let ga = a.clients@[k].consumer_groups@;
+                assert(b.clients@.dom().contains(k));
+                assert(b.clients@.contains_key(k));
+                assert(b.clients@[k].consumer_groups@ == ga.filter(keep));
+                if ga[i].stream_id == s {
+                    assert(keep(ga[i]));
+                    lemma_cascade_siblings_kept(ga, keep);
+                    assert(ga.filter(keep).contains(ga[i]));
+                    let j = choose|j: int| 0 <= j < ga.filter(keep).len() && ga.filter(keep)[j] == ga[i];
+                    assert(b.clients@[k].consumer_groups@[j].stream_id == s);
+                }
+            }
+        }
+    }
+    assert(b.purged_streams() =~= a.purged_streams().insert(sid));
+}
+
+// ---- unit alloc_runtime: opaque client manager, `cm_inv` -----------------------------------------------------------------------------
+// (interpretation of units/alloc_runtime/prelude.rs `cm_inv`, UNINTERPRETED there over an opaque stand-in; the same conjunction as in
+// units/user_disconnect/lemmas.rs; `cm_ids_nonzero` is vx/prelude/disconnect.rs word for word)
+pub open spec fn cm_ids_nonzero(cm: &ClientManager) -> bool {
+    forall|k: u32, i: int| #![trigger cm.clients@[k].consumer_groups@[i]] cm.clients@.contains_key(k) && 0 <= i < cm.clients@[k].consumer_groups@.len()
+        ==> cm.clients@[k].consumer_groups@[i].stream_id != 0 && cm.clients@[k].consumer_groups@[i].topic_id != 0 && cm.clients@[k].consumer_groups@[i].group_id != 0
+}
+pub open spec fn cm_inv(cm: &ClientManager) -> bool {
+    cm_keys_wf(cm) && members_wf(cm) && cm_ids_nonzero(cm)
+}
+impl ClientManager {
+    // copied from units/alloc_runtime/prelude.rs, stub `ClientManager::delete_clients_for_user`. The `requires` was added to the stub by this
+    // link: it had none, the real function is proved under keys_wf.
+    // label: C06.link.alloc_runtime.delete_clients_for_user
+    pub fn link_alloc_runtime_delete_clients_for_user(&mut self, user_id: u32) -> (r: Result<(), IggyError>)
+        requires cm_inv(old(self)),
+        ensures r is Ok
+    {
+        self.delete_clients_for_user(user_id)
+    }
+}
